@@ -134,6 +134,10 @@ def _factory(arg):
     return res
 
 
+def _factory_chunk(items):
+    return merge_results([_factory(it) for it in items])
+
+
 def _hyp_shard(arg):
     shard, n = arg
     from hypothesis import given, strategies as st
@@ -203,7 +207,12 @@ def run(tier):
     limit = 50 if tier == "quick" else 300
     todo = sorted((s, role) for s, role in stds if int(s.rsplit("_", 1)[1]) <= limit or s.startswith("fulldiv"))
     todo = [(s, r) for s, r in todo if not (s.startswith("fulldiv") and int(s.rsplit("_", 1)[1]) > 300)]
-    results += pmap(_factory, todo)
+    # fulldiv documents four sizes: every other N must be refused with ValueError by the factory, not only the few that
+    # the token alphabet happens to name
+    sweep_to = 700 if tier == "quick" else 3000
+    sweep = [(f"fulldiv_{n}", "b") for n in range(2, sweep_to + 1) if n not in FULLDIV_SIZES and (f"fulldiv_{n}", "b") not in todo]
+    todo += sweep
+    results += pmap(_factory_chunk, [todo[i::64] for i in range(64)])
     results += pmap(_hyp_shard, [(s, (2000 if tier == "quick" else 40000) // 16) for s in range(16)])
     res = merge_results(results)
     if tier == "thorough":
@@ -212,7 +221,7 @@ def run(tier):
     res.violations.sort(key=lambda v: len(str(v["case"])))
     rule = (f"exhaustive: all names of 1..{max_len} tokens over the {len(tokens)}-token alphabet {tokens} for both roles "
             f"(names with a dimension tag skipped as unspecified); every distinct accepted standard name with N<={limit} "
-            f"(and every fulldiv name) is constructed by the factory; plus Hypothesis names from arbitrary text tokens. "
+            f"(and every fulldiv name, and fulldiv with every N in 2..{sweep_to}) is constructed by the factory; plus Hypothesis names from arbitrary text tokens. "
             f"Non-trivial = multi-token or accepted names; distinct = distinct (name, role).")
     return res, rule, {"exhaustive": True,
                        "extra": {"exhaustive_part_evaluations": n_exh, "factory_constructions": len(todo),
